@@ -243,6 +243,24 @@ def check_case(params):
                 applied = np.array([apply(v) for v in np.asarray(sym_arr, dtype=object).flatten()], dtype=object)
                 lhs_all = [numeric(lhs_arr, env) for env in envs]
                 rhs_all = [numeric(applied, env) for env in envs]
+                # the library's own substitution on the evaluated value (Tensor.subs / CQMap.subs)
+                sym_val = d.eval(mixed=mixed) if cls == "circuit" else d.eval()
+                if hasattr(sym_val, "subs") and hasattr(sym_val, "array"):
+                    if mode in ("successive", "successive-reversed"):
+                        lib = sym_val
+                        for a, b in (pairs if mode == "successive" else list(reversed(pairs))):
+                            lib = lib.subs(a, b)
+                    else:
+                        lib = sym_val.subs(pairs) if len(pairs) > 1 else sym_val.subs(pairs[0][0], pairs[0][1])
+                    if (lib.dom, lib.cod) != (sym_val.dom, sym_val.cod):
+                        bad("value-subs-type", "substituting into the evaluated %s changed its type" % type(sym_val).__name__)
+                        return out
+                    for env, rhs in zip(envs, rhs_all):
+                        got = numeric(np.asarray(lib.array, dtype=object), env)
+                        if got.shape != rhs.shape or not np.all(np.abs(got - rhs) <= 1e-9 * (1 + np.abs(rhs))):
+                            bad("value-subs", "eval().subs(%s) of the %s differs from substituting its entries: %s vs %s"
+                                % (pairs, type(sym_val).__name__, np.round(got, 5).tolist()[:6], np.round(rhs, 5).tolist()[:6]))
+                            return out
         except Exception as e:  # noqa
             bad("eval-raises", "evaluating (mixed=%s) raised %s: %s" % (mixed, type(e).__name__, str(e)[:140]))
             return out
